@@ -155,6 +155,10 @@ def _many(s1, s2, n, pos):
     if (r1 != r2 and 1 not in (r1, r2)) or (c1 != c2 and 1 not in (c1, c2)):
         return True
     args = ['p'] * n
+    args[(pos + 3) % n] = True                   # a logical and a number typed among the text arguments
+    args[(pos + 4) % n] = 2.0
+    if s1 == 4:
+        args[(pos + 5) % n] = Error.errors['#NUM!']   # and, for one shape class, an error value
     args[pos % n] = x
     args[(pos + 7) % n] = y
     few = [a for a in args if not (isinstance(a, str) and a == 'p')]
